@@ -99,7 +99,8 @@ for h, r, f, fields in structs:
     hn = h.replace('c15_', 'c15e_')
     body = ['#[cfg_attr(kani, kani::proof)]', '#[cfg_attr(not(kani), test)]', 'fn %s() {' % hn,
             '    let buf: [u8; %d] = vsrc::any();' % total,
-            '    let ent = %s::new_unchecked(Bytes::copy_from_slice(&buf[..]));' % e]
+            "    let sbuf: &'static [u8] = Box::leak(Box::new(buf));",
+            '    let ent = %s::new_unchecked(Bytes::from_static(sbuf));' % e]
     obs = []
     off = 0
     for fn_, sz in fields:
@@ -123,7 +124,7 @@ moddecl = { file = "util/gen-types/src/lib.rs", text = "mod __verif_c15_entity;"
 mem_gb = 24
 
 trusted = [
-  "Kani/CBMC bit-precise semantics of the compiled ckb-gen-types crate and of the bytes crate (Bytes::copy_from_slice / Bytes::slice, real code, unmodified)",
+  "Kani/CBMC bit-precise semantics of the compiled ckb-gen-types crate and of the bytes crate (Bytes::from_static / Bytes::slice, real code, unmodified); the entity is built over a leaked static buffer, so the reference-counted Bytes vtables are not exercised (with them one 36-byte harness needed > 18 GB in CBMC) -- the accessor code under contract is the same for every Bytes representation",
   "the expected field order and sizes are transcribed from the molecule schemas util/gen-types/schemas/{blockchain,extensions}.mol",
   "all byte values symbolic at the exact total size; loop-free => complete",
 ]
@@ -140,7 +141,7 @@ module_text = \'\'\'
 etail = []
 for h, r, obs in eharness:
     etail.append('[[harness]]\nname = "%s"\nfunction = "%s"\nobligations = [\n%s\n]\n' % (h, r, '\n'.join('  "%s",' % o for o in obs)))
-open(os.environ.get('C15_ENTITY_OUT', '/dev/null'), 'w').write(ehead + '\n'.join(etail))
+open(os.path.join(ROOT, 'contracts', 'c15_entity.toml'), 'w').write(ehead + '\n'.join(etail))
 head = '''# GENERATED by tools/gen_c15.py -- edit the generator, not this file
 unit   = "c15_layout"
 engine = "kani-overlay"
